@@ -74,14 +74,6 @@ def merge_vertices(
         # this is used for geometry without faces
         referenced = np.ones(len(mesh.vertices), dtype=bool)
 
-    # coordinates too large for an int64 after the multiplication would wrap
-    # around and distinct vertices would be merged: use fewer digits for them,
-    # a float64 of that magnitude has no finer resolution anyway
-    finite = np.abs(mesh.vertices[np.isfinite(mesh.vertices)])
-    peak = float(finite.max()) if finite.size > 0 else 0.0
-    if peak * 10.0**digits_vertex >= 2.0**62:
-        digits_vertex = int(np.floor(np.log10(2.0**62 / peak)))
-
     # collect vertex attributes into sequence we can stack
     stacked = [mesh.vertices * (10.0**digits_vertex)]
 
@@ -104,7 +96,20 @@ def merge_vertices(
         stacked.append(normals * (10**digits_norm))
 
     # stack collected vertex properties and round to integer
-    stacked = np.column_stack(stacked).round().astype(np.int64)
+    stacked = np.column_stack(stacked).round()
+    # values too large for an int64 would wrap around in the cast and distinct
+    # vertices would be merged: such a float64 is an exact integer already, so
+    # use its bit pattern, which is beyond 2**62 in magnitude and keeps distinct
+    # values distinct without touching the precision of the other coordinates
+    huge = np.abs(stacked) >= 2.0**62
+    if huge.any():
+        bits = np.abs(stacked[huge]).view(np.int64)
+        sign = np.sign(stacked[huge]).astype(np.int64)
+        stacked[huge] = 0.0
+        stacked = stacked.astype(np.int64)
+        stacked[huge] = sign * bits
+    else:
+        stacked = stacked.astype(np.int64)
 
     # check unique rows of referenced vertices
     u, i = unique_rows(stacked[referenced], keep_order=True)
